@@ -41,8 +41,10 @@ enum Env {
     Set,
     Empty,
     Unset,
+    /// the variable holds bytes that are not UTF-8 (the argument gets an OsString parser)
+    NonUtf8,
 }
-const ENVS: [Env; 4] = [Env::None, Env::Set, Env::Empty, Env::Unset];
+const ENVS: [Env; 5] = [Env::None, Env::Set, Env::Empty, Env::Unset, Env::NonUtf8];
 
 #[derive(Clone, Copy, Debug, PartialEq, Eq)]
 enum Rel {
@@ -113,11 +115,16 @@ impl Cfg {
             (Env::Set, Kind::Count) => Some("3"),
             (Env::Set, _) => Some("envv"),
             (Env::Empty, _) => Some(""),
+            // as shown by the lossy rendering the observations are compared in
+            (Env::NonUtf8, _) => Some("w\u{fffd}"),
             _ => None,
         }
     }
     fn applicable(&self) -> bool {
         if self.dm && self.kind != Kind::Set01 {
+            return false;
+        }
+        if self.env == Env::NonUtf8 && (matches!(self.kind, Kind::Flag | Kind::Count) || self.rel == Rel::ZRequiredIfOEqualsDefaultIgnoringCase) {
             return false;
         }
         if self.env == Env::Empty && matches!(self.kind, Kind::Flag | Kind::Count) {
@@ -169,7 +176,11 @@ impl Cfg {
             (Env::Set, _) => Some("CLAPMC_SET".into()),
             (Env::Empty, _) => Some("CLAPMC_EMPTY".into()),
             (Env::Unset, _) => Some("CLAPMC_UNSET".into()),
+            (Env::NonUtf8, _) => Some("CLAPMC_NONUTF8".into()),
         };
+        if self.env == Env::NonUtf8 {
+            o.parser = Vp::Os;
+        }
         let mut other = ArgSpec::opt("other", None, Some("other"));
         let mut z = ArgSpec::flag("z", None, Some("z"));
         z.action = Some(Act::SetTrue);
